@@ -57,23 +57,10 @@ def spin_kind(m):
     """Root-cause class of a spin just raised by m.feed, from the out-of-space redirects it performed."""
     if not m.overflow_log:
         return "no-overflow"
-    src, act = m.overflow_log[-1]
-    if act.end_target is src:
-        return "overflow-targets-own-state"
-    # can the out-of-space target fall back (through fallthrough transitions only) to the state holding the append?
-    seen = set()
-    work = [act.end_target]
-    while work:
-        x = work.pop()
-        if id(x) in seen:
-            continue
-        seen.add(id(x))
-        if x is src:
-            return "overflow-handler-falls-back-to-append"
-        for t in x.transitions:
-            if t.is_fallthrough and t.target is not None:
-                work.append(t.target)
-    return "overflow-other"
+    # An out-of-space redirect takes part in the cycle.  Whether the cycle closes through a loop statement's repeat (the open
+    # finding: the handler completes and the loop re-enters the append) or not (e.g. a catch block re-entering itself, fixed)
+    # is decided on the source by the caller.
+    return "overflow-cycle"
 
 
 def explore(m, alphabet, node_cap, with_end):
@@ -158,6 +145,8 @@ def check_program(shard, prog, argv, node_cap=1500, alphabet=None, extra_inputs=
             shard.sample({"source": src, "argv": argv, "alphabet": alphabet, "configs": stats["configs"], "dispatches": stats["dispatches"]})
         return
     word, kind = witness
+    if kind.endswith("overflow-cycle"):
+        kind += "-through-loop" if "loop" in src else "-without-loop"
     if kind.startswith("broken"):
         raise Failure("c04:machine-broken", "input %s: %s" % (word.hex(), kind), dict(replay, input=word.hex()))
     # ---- confirm on the C binary
@@ -212,11 +201,18 @@ def focused_program(draw):
     if draw(st.integers(0, 3)) == 0:
         stmts.insert(0, ("appendc", "s0", ("num", 65, "dec")))
     loop = ("loop", None, tuple(stmts))
-    outer = draw(st.sampled_from(["none", "try", "loop"]))
+    outer = draw(st.sampled_from(["none", "try", "loop", "lead-try", "lead-case", "lead-optional"]))
     if outer == "try":
         body = (("try", None, (loop,), ()),)
     elif outer == "loop":
         body = (("loop", "outer", (loop, ("match", ("lit", b"!", "str")))),)
+    elif outer == "lead-try":
+        # a construct that falls through into the loop head on a mismatch
+        body = (("try", ("nomatch",), (("match", ("lit", b"x", "str")),), ()), loop)
+    elif outer == "lead-case":
+        body = (("case", False, (((("lit", b"x", "str"),), None, ()), (("else",), None, ()))), loop)
+    elif outer == "lead-optional":
+        body = (("optional", (("match", ("lit", b"x", "str")),)), loop)
     else:
         body = (loop,)
     prog.body = body
